@@ -218,8 +218,49 @@ fn sweep(ch: &mut Choices, case: &mut Case) -> Result<(), String> {
     Ok(())
 }
 
+/// Exhaustive over the years: what depends on a per-year computation (Easter, ISO week
+/// numbering, leap days) is compared with the model in *every* year 1900..9999, on the days
+/// around the event — a slip that shows in 5 years out of 8100 is invisible to sampling.
+fn check_year_tables(index: u64, acc: &mut crate::util::Acc) {
+    let y = 1900 + index as i32;
+    let e = model::easter(y);
+    let ymd = |yy: i32, m: u32, d: u32| NaiveDate::from_ymd_opt(yy, m, d);
+    let around = |c: NaiveDate, before: i64, after: i64| -> Vec<NaiveDate> { (-before..=after).filter_map(|k| c.checked_add_signed(chrono::Duration::days(k))).collect() };
+    let year_end: Vec<NaiveDate> = around(ymd(y, 12, 31).unwrap(), 9, 0).into_iter().chain(around(ymd(y, 1, 1).unwrap(), 0, 9)).collect();
+    let cases: [(&str, Vec<NaiveDate>); 5] = [
+        ("easter", around(e, 8, 8)),
+        ("easter -2 days-easter +1 day 10:00-12:00", around(e, 4, 3)),
+        ("week 1,52,53 Mo-Su", year_end.clone()),
+        ("Feb 29; Feb 28-Mar 1 unknown \"x\"", around(ymd(y, 2, 28).unwrap(), 1, 2)),
+        ("week 2-51/7 off || Su[-1],Mo[1] 08:00-12:00", year_end),
+    ];
+    let none = GenHolidays::default();
+    for (expr, days) in cases {
+        let (Ok(ast), Ok(oh)) = (opening_hours_syntax::parse(expr), OpeningHours::parse(expr)) else {
+            return acc.fail("semantics", format!("{expr} @ {y}-01-01"), format!("constructed sentence `{expr}` rejected"));
+        };
+        for d in days {
+            if !model::in_supported_range(d) {
+                continue;
+            }
+            match compare_day(&oh, &ast, &none, d) {
+                Ok(info) => acc.case(info.selective_rule_applied),
+                Err(m) => return acc.fail("semantics", format!("{expr} @ {d}"), format!("{expr}: {m}")),
+            }
+        }
+    }
+    if index % 1013 == 0 {
+        acc.sample(|| format!("year {y}: Easter on {e}, ISO week of Dec 31 = {}", model::iso_week(ymd(y, 12, 31).unwrap())));
+    }
+}
+
 fn extra(_tier: Tier, _seed: u64) -> Vec<SubOutcome> {
-    Vec::new()
+    vec![crate::util::par_enumerate(
+        "year_tables",
+        "exhaustive over the years 1900..9999: `easter`, an Easter range with offsets, `week 1,52,53`, a week step with nth weekdays and `Feb 29` against the reference model on the days around Easter (+-8), around the turn of the year (Dec 22..Jan 10) and around the end of February; non-trivial = the selector applies on the day",
+        8100,
+        check_year_tables,
+    )]
 }
 
 pub fn property() -> Property {
